@@ -91,6 +91,8 @@ fn gen(src: &mut Src, tier: Tier) -> Case {
         let k = 1 + src.below(3);
         Node::Cat((0..k).map(|_| gen_dup(src, &cfg, &mut avail, 0)).collect())
     };
+    // anchored patterns take the executors' start-anchored paths
+    let node = if src.chance(1, 5) { Node::Cat(vec![Node::Bol, node]) } else { node };
     let escape_names = src.chance(1, 6);
     let pat = Printer::print_opts(&node, fl.mode, escape_names);
     let mut names = vec![];
@@ -117,13 +119,40 @@ pub fn check(case: &Case, l: &mut Local) -> Verdict {
         Err(e) => return Verdict::Fail(format!("valid pattern (names unique per alternative) rejected: {}", e)),
     };
     let h = case.hay.as_str();
-    regress::verif::set_fuel(DEFAULT_FUEL);
-    let ms: Vec<regress::Match> = re.find_iter(h).take(h.len() + 2).collect();
-    let cut = regress::verif::report().exhausted;
-    regress::verif::set_fuel(u64::MAX);
-    if cut {
-        return Verdict::Skip("cut_by_fuel");
+    // every producer of Match values: the default executor and the PikeVM, UTF-8 and (on ASCII text) ASCII entry
+    // points, the iterator and the single-match forms, the optimizing and the non-optimizing pipeline
+    use regress::backends as rbe;
+    let re_noopt = compile(&case.pat, fl, true).ok();
+    let mut ms: Vec<regress::Match> = vec![];
+    let mut per_source: Vec<(&str, Vec<(usize, usize)>)> = vec![];
+    let lim = h.len() + 2;
+    for src_id in 0..8 {
+        if src_id >= 4 && src_id < 7 && !h.is_ascii() {
+            continue;
+        }
+        regress::verif::set_fuel(DEFAULT_FUEL);
+        let (name, v): (&str, Vec<regress::Match>) = match src_id {
+            0 => ("find_iter", re.find_iter(h).take(lim).collect()),
+            1 => ("find_from(0)", re.find_from(h, 0).take(lim).collect()),
+            2 => ("pikevm", rbe::find::<rbe::PikeVMExecutor>(&re, h, 0).take(lim).collect()),
+            3 => ("find", re.find(h).into_iter().collect()),
+            4 => ("find_iter_ascii", re.find_iter_ascii(h).take(lim).collect()),
+            5 => ("pikevm_ascii", rbe::find_ascii::<rbe::PikeVMExecutor>(&re, h, 0).take(lim).collect()),
+            6 => ("find_ascii", re.find_ascii(h).into_iter().collect()),
+            _ => match &re_noopt {
+                Some(r) => ("no_opt.find_iter", r.find_iter(h).take(lim).collect()),
+                None => continue,
+            },
+        };
+        let cut = regress::verif::report().exhausted;
+        regress::verif::set_fuel(u64::MAX);
+        if cut {
+            return Verdict::Skip("cut_by_fuel");
+        }
+        per_source.push((name, v.iter().map(|m| (m.start(), m.end())).collect()));
+        ms.extend(v);
     }
+    let _ = per_source;
     let n = names.len();
     let mut nontrivial = false;
     // distinct names in source order
@@ -229,7 +258,7 @@ pub fn run(ctx: &Ctx) -> i32 {
     ctx.run_variant(&V, ctx.scale(500_000, 8_000_000));
     ctx.finish(
         "exploration",
-        "generated patterns with 0-8 groups mixing unnamed, named (ASCII, non-ASCII, astral, \\u-escaped spellings) and names duplicated across alternatives at several nesting levels, inside loops and lookarounds; for every match of find_iter: captures.len() = number of capturing groups of the generator's AST (left-paren order), group/groups/size_hint identities, named_groups() = each distinct name once in source order with the participating group's range, named_group(name) = the same value, unknown/empty names -> None. Non-trivial = at least one named group and at least one non-participating group in a match.",
+        "generated patterns with 0-8 groups mixing unnamed, named (ASCII, non-ASCII, astral, \\u-escaped spellings) and names duplicated across alternatives at several nesting levels, inside loops and lookarounds, a fifth of them start-anchored; for every Match produced by ANY producer (find_iter, find_from, find, the PikeVM executor, the ASCII entry points of both executors on ASCII text, and the no_opt pipeline): captures.len() = number of capturing groups of the generator's AST (left-paren order), group/groups/size_hint identities, named_groups() = each distinct name once in source order with the participating group's range, named_group(name) = the same value, unknown/empty names -> None. Non-trivial = at least one named group and at least one non-participating group in a match.",
         &["group count / name order come from the generator's AST (the pattern is valid by construction), not from regress", "fuel hook"],
     )
 }
